@@ -181,6 +181,9 @@ class LIST(Sort):
 STR = LIST(INT, is_str=True)  # a string is a list of code points
 
 
+_dict_cache = {}
+
+
 class DICT(Sort):
     def __init__(self, key, val):
         self.key, self.val = key, val
@@ -189,6 +192,16 @@ class DICT(Sort):
         return VDict(self.key, self.val,
                      z3.Array(fresh_name(name + ".dom"), self.key.z3sort(), z3.BoolSort()),
                      z3.Array(fresh_name(name + ".map"), self.key.z3sort(), self.val.z3sort()))
+
+    def z3sort(self):
+        # a dict as a VALUE inside another container: the pair (domain, map)
+        ks, vs = self.key.z3sort(), self.val.z3sort()
+        key = str(ks) + "->" + str(vs)
+        if key not in _dict_cache:
+            dt = z3.Datatype("Dict_" + "".join(ch for ch in key if ch.isalnum()))
+            dt.declare("mk", ("dom", z3.ArraySort(ks, z3.BoolSort())), ("map", z3.ArraySort(ks, vs)))
+            _dict_cache[key] = dt.create()
+        return _dict_cache[key]
 
     def __repr__(self):
         return "DICT(%r,%r)" % (self.key, self.val)
@@ -395,6 +408,9 @@ def to_z3(v, sort=None):
     if isinstance(v, VList):
         dt = LIST(v.elem, v.is_str).z3sort()
         return dt.mk(v.arr, v.len)
+    if isinstance(v, VDict):
+        dt = DICT(v.key, v.val).z3sort()
+        return dt.mk(v.dom, v.map)
     if isinstance(v, VTuple):
         s = sort if isinstance(sort, TUPLE) else sort_of(v)
         return s.dt.mk(*[to_z3(i, si) for i, si in zip(v.items, s.items)])
@@ -414,6 +430,9 @@ def from_z3(e, sort):
     if isinstance(sort, LIST):
         dt = sort.z3sort()
         return VList(sort.elem, dt.arr(e), dt.len(e), sort.is_str)
+    if isinstance(sort, DICT):
+        dt = sort.z3sort()
+        return VDict(sort.key, sort.val, dt.dom(e), dt.map(e))
     return e
 
 
